@@ -35,6 +35,11 @@ func VF_C18_Notify() {
 			gap = true
 		}
 	}
+	// the snapshot update that follows a commit may fail (storage fault, snapshot lock
+	// held by an earlier update): the push is committed and must be announced all the same
+	snapFault := []string{"", "GetLatestSnapshot", "InsertSnapshot", "InsertRealSnapshot"}[vf.Choice("snapshot-fault", 4)]
+	vf.Tag("snapshot-fault", snapFault)
+	w.store.FailName = snapFault
 	res, err := w.pushPull(vfCol, vfCUIDx, ppp)
 	vf.Assert(err == nil && res != nil, "C16 answered")
 	vf.Quiesce() // let the post-commit goroutine (notification, snapshot update) run
